@@ -29,10 +29,10 @@ def mean_of_array(E, seq):
     return E.lib['numpy.mean'](E, E.lib['numpy.array'](E, seq))
 
 
-def check_boot(run, E):
+def check_boot(run, E, pid='C07'):
     """boot_noise_ceiling: fold i compares group i's RDMs with pool(all OTHER groups) (lower) and pool(all) (upper);
     both bounds are plain means over the folds.  The leave-one-out sets come from sets_leave_one_out_rdm (C05 contract)."""
-    ck = FuncCheck(E, run, 'C07', NC + 'boot_noise_ceiling', '')
+    ck = FuncCheck(E, run, pid, NC + 'boot_noise_ceiling', '')
     holder = {}
 
     def loo_define(E, rdms, rdm_descriptor='index'):
@@ -88,9 +88,9 @@ def check_boot(run, E):
     yield ck
 
 
-def check_cv(run, E):
+def check_cv(run, E, pid='C07'):
     """cv_noise_ceiling: lower = pool(ceil_set[f] RDMs) at the test conditions vs test data; upper = pool(all) likewise"""
-    ck = FuncCheck(E, run, 'C07', NC + 'cv_noise_ceiling', '')
+    ck = FuncCheck(E, run, pid, NC + 'cv_noise_ceiling', '')
 
     def mk(E):
         ceil, test = sym_sets(E, 'ceil_set'), sym_sets(E, 'test_set')
